@@ -238,8 +238,11 @@ def races(ck, binary):
         b = vd[0]["bad"][0]
         start = max(k for k in line_of if k <= b)
         ci, run = line_of[start]
-        raise vf.Infra("race %s (position %s): recorded line %s is not a step of TunnelRace; run: %s" % (
-            cases[ci]["name"], run["before"], json.dumps(lines[b - 1]), " ".join("%d:%s%s=%s" % (e["r"], e["a"], e["i"] or "", e["res"]) for e in run["events"])))
+        # the handlers do something TunnelRace does not describe.  Not a verdict by itself: the walks are still executed and judged; the run is
+        # inconclusive only if they find nothing either (raised at the end of run())
+        ck.race_divergence = "race %s (position %s): recorded line %s is not a step of TunnelRace; run: %s" % (
+            cases[ci]["name"], run["before"], json.dumps(lines[b - 1]), " ".join("%d:%s%s=%s" % (e["r"], e["a"], e["i"] or "", e["res"]) for e in run["events"]))
+        ck.notes.append(ck.race_divergence)
 
 
 def run(ck):
@@ -316,6 +319,12 @@ def run(ck):
             raise vf.Infra("simulation produced %d of %d behaviours" % (len(sim), nsim))
         ck.extra["simulated_walks"] = len(sim)
         walks += sim
+        # directed: the requests of one client reach different edge nodes (what one of them did must be known to the other through the ring only)
+        for c, h, first in (("A", "g1", "generate"), ("B", "g2", "generate"), ("A", "x1", "validate"), ("B", "x1", "validate")):
+            for a, bb in ((1, 2), (2, 1)):
+                mk = lambda op, via, servers=(): {"call": {"op": op, "c": c, "h": h, "servers": list(servers)}, "spoof": "none", "via": via}
+                walks.append([mk(first, a), mk("publish", a, ["n1", "n2"]), mk("release", bb), mk("publish", a, ["n1"]), mk("unpublish", a),
+                              mk(first, bb), mk("publish", bb, ["n2"]), mk("unpublish", a), mk("publish", a, ["n3"]), mk("release", a), mk("publish", bb, ["n1"])])
         ck.exhaustive = True   # of the bounded graph (every edge executed at least once)
 
     b = join(tb, "build")
@@ -326,7 +335,9 @@ def run(ck):
         for st in w:
             if "spoof" not in st:
                 st["spoof"] = ck.rng.choice(["none", "other", "other", "junk"])
-    recs = ck.drive(b, ["publish"], input_lines=[{"steps": [dict(s["call"], spoof=s["spoof"]) for s in w]} for w in walks], timeout=1500)
+            if "via" not in st:        # the edge node the client calls (both serve the same ring store): part of the input as well
+                st["via"] = ck.rng.choice([1, 2])
+    recs = ck.drive(b, ["publish"], input_lines=[{"steps": [dict(s["call"], spoof=s["spoof"], via=s["via"]) for s in w]} for w in walks], timeout=1500)
     byi = {x["i"]: x["o"] for x in recs if "i" in x}
     if len(byi) != len(walks):
         raise vf.Infra("driver answered %d of %d walks\n%s" % (len(byi), len(walks), getattr(ck, "last_stderr", "")[-2000:]))
@@ -405,7 +416,9 @@ def run(ck):
                              "%s; request=%s by %s (claimed identity: %s) outcome=%s pre=%s post=%s" % (
                                  names[clause], json.dumps(rec["call"]), rec["call"]["c"], o.get("spoof"), o.get("code"),
                                  json.dumps(rec["pre"]), json.dumps(rec["post"])),
-                             {"steps": [{"call": s["call"], "spoof": s["spoof"]} for s in prefix]})
+                             {"steps": [{"call": s["call"], "spoof": s["spoof"], "via": s["via"]} for s in prefix]})
+    if getattr(ck, "race_divergence", None) and not ck.viol:
+        raise vf.Infra(ck.race_divergence)
     if differs:
         ck.notes.append("%d executed steps differ from the transcribed handlers of the model (judged by the statement only); first: %s"
                         % (differs, json.dumps(differ_example)))
